@@ -15,10 +15,83 @@ import (
 // every 29.5306 days on a grid through a chosen anchor; both as whole day numbers (relative to J2000).
 type synthSky struct {
 	moonAnchor float64
+	// an irregular sky: every jitP-th new moon (those with number = jitR mod jitP) falls jit days late, so that
+	// lunations of 27 to 32 days occur and a lunation after the leap one can hold two major terms
+	jit        float64
+	jitP, jitR int64
+}
+
+func (s synthSky) String() string {
+	if s.jitP == 0 {
+		return fmt.Sprintf("new-moon grid through day %.0f", s.moonAnchor)
+	}
+	return fmt.Sprintf("new-moon grid through day %.0f, every %dth new moon %.0f days late", s.moonAnchor, s.jitP, s.jit)
 }
 
 func (s synthSky) term(k int64) float64 { return math.Floor(355 + 15.2184*float64(k)) }
-func (s synthSky) moon(k int64) float64 { return s.moonAnchor + math.Floor(29.5306*float64(k)) }
+func (s synthSky) moon(k int64) float64 {
+	m := s.moonAnchor + math.Floor(29.5306*float64(k))
+	if s.jitP > 0 && ((k%s.jitP)+s.jitP)%s.jitP == s.jitR {
+		m += s.jit
+	}
+	return m
+}
+
+// skyYear: the terms (0 = the winter solstice before the middle of year y) and lunations (0 = the one that holds
+// that solstice) of a year in the sky.
+func (s synthSky) skyYear(y int64) (jq, hs func(i int64) float64) {
+	jd := math.Floor(float64(y-2000)*365.2422 + 180)
+	k0, q := s.termNear(math.Floor((jd-355+183)/365.2422)*365.2422 + 355)
+	if q > jd {
+		k0, q = s.termNear(q - 365.2422)
+	}
+	jq = func(i int64) float64 { return s.term(k0 + i) }
+	h0, m0 := s.moonNear(jq(0))
+	if m0 > jq(0) {
+		h0, _ = s.moonNear(m0 - 29.53)
+	}
+	hs = func(i int64) float64 { return s.moon(h0 + i) }
+	return jq, hs
+}
+
+// irregularLeap: year y has thirteen new moons before the next winter solstice, every lunation before its first
+// one without a major term holds exactly one (so that "the first lunation without a major term" is not in doubt),
+// and a lunation after it holds two: the positions that satisfy the leap test are then not contiguous.
+func (s synthSky) irregularLeap(y int64) bool {
+	jq, hs := s.skyYear(y)
+	if !(hs(0) <= jq(0) && jq(0) < hs(1)) || !(hs(13) <= jq(24)) {
+		return false
+	}
+	count := func(i int64) int {
+		n := 0
+		for k := int64(0); k <= 28; k += 2 {
+			if hs(i) <= jq(k) && jq(k) < hs(i+1) {
+				n++
+			}
+		}
+		return n
+	}
+	first := int64(-1)
+	for i := int64(1); i <= 13 && first < 0; i++ {
+		switch count(i) {
+		case 0:
+			first = i
+		case 1:
+		default:
+			return false
+		}
+	}
+	if first < 0 {
+		return false
+	}
+	for i := first + 1; i <= 12; i++ {
+		if !(hs(i+1) <= jq(2*i)) {
+			return true
+		}
+	}
+	return false
+}
+
 func (s synthSky) termNear(x float64) (int64, float64) {
 	k := int64(math.Round((x - 355) / 15.2184))
 	return k, s.term(k)
@@ -46,19 +119,7 @@ func (m monthRec) String() string {
 // year; the two historical renaming eras shift the names by one and close with a month 12 stored as -11.
 func statedMonths(s synthSky, y int64, leap11, leap12 map[int64]bool) (recs []monthRec, terms []float64) {
 	const j2000 = 2451545
-	jd := math.Floor(float64(y-2000)*365.2422 + 180)
-	// the winter solstice at or before that day
-	k0, q := s.termNear(math.Floor((jd-355+183)/365.2422)*365.2422 + 355)
-	if q > jd {
-		k0, q = s.termNear(q - 365.2422)
-	}
-	jq := func(i int64) float64 { return s.term(k0 + i) }
-	h0, m0 := s.moonNear(jq(0))
-	if m0 > jq(0) {
-		h0, m0 = s.moonNear(m0 - 29.53)
-	}
-	_ = m0
-	hs := func(i int64) float64 { return s.moon(h0 + i) }
+	jq, hs := s.skyYear(y)
 	// term table entries: the accurate instant (marker: + 0.125) of the term before estimate i
 	for i := int64(0); i < 31; i++ {
 		terms = append(terms, jq(i-1)+0.125+j2000)
@@ -128,7 +189,7 @@ func computeTables(c *Ctx, r *Report, rule string, months bool) {
 	if !months {
 		r.rule(rule, "The term table of a year holds the accurate instants of its estimates. LunarYear.compute is followed as in R06.5 (synthetic ephemeris: terms on a 15.2184-day grid, CalcQi answering with the nearest grid point, QiAccurate2 with a marker): the 31 entries it stores into the table that ends up in jieQiJulianDays are, in order, the accurate instant of the term before the first estimate, of the 26 estimates, and of four more terms extrapolated from the last estimate at 15.2184 days each. That the real ephemeris is right is C02/C03's numeric part.")
 	} else {
-		r.rule(rule, "The month table of a year is built as stated. LunarYear.compute is followed by the evaluator (its seven loops as tables over the iteration number, local arrays in the walker's memory, helpers inline) on a synthetic ephemeris supplied by the checker — terms on a 15.2184-day grid, new moons on a 29.5306-day grid with several phases, both as whole days; CalcQi and CalcShuo answer with the nearest grid point, QiAccurate2 with a marker — for 60 modern years per phase and for the years around the two historical renaming eras: the fifteen NewLunarMonth records it lists, in order, are (year label, month number, days, first day, index in the year) of the stated table — months 11, 12, 1 .. 10, 11, ... from the new moon at or before the winter solstice; a leap month where thirteen new moons precede the next solstice: the first lunation after the first without a major term (position 1 included), with the number of its predecessor, negative; the year label turning over where the number drops; day counts the differences of consecutive new moons. (The term table filled by the same function is R03.10.) That the real ephemeris is right is C02/C03.")
+		r.rule(rule, "The month table of a year is built as stated. LunarYear.compute is followed by the evaluator (its seven loops as tables over the iteration number, local arrays in the walker's memory, helpers inline) on a synthetic ephemeris supplied by the checker — terms on a 15.2184-day grid, new moons on a 29.5306-day grid with several phases, both as whole days, and irregular skies in which every fifth new moon falls two days late (the years of those in which a lunation after the first one without a major term holds two, so that the positions satisfying the leap test are not contiguous); CalcQi and CalcShuo answer with the nearest grid point, QiAccurate2 with a marker — for 60 modern years per phase and for the years around the two historical renaming eras: the fifteen NewLunarMonth records it lists, in order, are (year label, month number, days, first day, index in the year) of the stated table — months 11, 12, 1 .. 10, 11, ... from the new moon at or before the winter solstice; a leap month where thirteen new moons precede the next solstice: the first lunation after the first without a major term (position 1 included), with the number of its predecessor, negative; the year label turning over where the number drops; day counts the differences of consecutive new moons. (The term table filled by the same function is R03.10.) That the real ephemeris is right is C02/C03.")
 	}
 	fn := c.Fn(r, rule, "calendar.(*LunarYear).compute")
 	if fn == nil || len(fn.Params) != 1 {
@@ -151,12 +212,28 @@ func computeTables(c *Ctx, r *Report, rule string, months bool) {
 	var scen []scenario
 	for _, anchor := range []float64{3, 11, 19, 27} {
 		for y := int64(1990); y < 2050; y++ {
-			scen = append(scen, scenario{synthSky{anchor}, y})
+			scen = append(scen, scenario{synthSky{moonAnchor: anchor}, y})
 		}
+	}
+	// irregular skies: the years in which the positions that satisfy the leap test are not contiguous
+	irregular := 0
+	for _, jr := range []int64{0, 2} {
+		for _, anchor := range []float64{3, 11, 19, 27} {
+			sky := synthSky{moonAnchor: anchor, jit: 2, jitP: 5, jitR: jr}
+			for y := int64(1990); y < 2050; y++ {
+				if sky.irregularLeap(y) {
+					scen = append(scen, scenario{sky, y})
+					irregular++
+				}
+			}
+		}
+	}
+	if irregular < 20 {
+		r.bad(rule, "irregular skies", "-", fmt.Sprintf("only %d years with non-contiguous leap candidates among the checker's skies (instance floor 20)", irregular))
 	}
 	// the renaming eras: a grid that has a new moon exactly on each closing day
 	for _, seam := range []float64{1729794, 1808699} {
-		sky := synthSky{seam - 2451545}
+		sky := synthSky{moonAnchor: seam - 2451545}
 		y0 := int64(math.Floor((seam-2451545)/365.2422)) + 2000
 		for y := y0 - 2; y <= y0+2; y++ {
 			scen = append(scen, scenario{sky, y})
@@ -327,12 +404,12 @@ func computeTables(c *Ctx, r *Report, rule string, months bool) {
 			terms = nil
 		}
 		if len(got) != len(want) {
-			bad = append(bad, fmt.Sprintf("year %d (new-moon grid through day %.0f): %d months listed, stated %d", year, sky.moonAnchor, len(got), len(want)))
+			bad = append(bad, fmt.Sprintf("year %d (%s): %d months listed, stated %d", year, sky, len(got), len(want)))
 			continue
 		}
 		for i := range want {
 			if got[i] != want[i] {
-				bad = append(bad, fmt.Sprintf("year %d (new-moon grid through day %.0f), lunation %d: %s, stated %s", year, sky.moonAnchor, i, got[i], want[i]))
+				bad = append(bad, fmt.Sprintf("year %d (%s), lunation %d: %s, stated %s", year, sky, i, got[i], want[i]))
 				break
 			}
 		}
@@ -364,7 +441,7 @@ func r06_6(c *Ctx, r *Report) {
 	if fn == nil || len(fn.Params) != 2 {
 		return
 	}
-	sky := synthSky{11}
+	sky := synthSky{moonAnchor: 11}
 	tables := map[int64][]monthRec{}
 	table := func(y int64) []monthRec {
 		if t, ok := tables[y]; ok {
